@@ -1,16 +1,17 @@
 CONSTANT Aggs <- OneAgg
-CONSTANT Calls <- CallsTwo
+CONSTANT Calls <- CallsSplit
 CONSTANT InitOut <- InitAbsent
-CONSTANT MaxCrashes = 1
-CONSTANT MaxSessions = 2
+CONSTANT MaxCrashes = 0
+CONSTANT MaxSessions = 1
 CONSTANT NormalExit = TRUE
 CONSTANT MaxWorkerKills = 0
 CONSTANT HeaderOnEmpty = TRUE
 CONSTANT OwnBuffer = TRUE
 CONSTANT HeaderNoClaim = TRUE
-CONSTANT SplitWrites = FALSE
+CONSTANT SplitWrites = TRUE
 CONSTANT StatWrongLock = FALSE
 SPECIFICATION Spec
+VIEW view
 INVARIANT NoDupRows
 INVARIANT HeaderFirstOnce
 INVARIANT RowsAreSubjects
@@ -20,4 +21,4 @@ INVARIANT ExactlyOnePerSubject
 INVARIANT NoCallFailed
 INVARIANT SiblingsIndependent
 PROPERTY RowsAppendOnly
-
+PROPERTY AllDone
